@@ -440,6 +440,17 @@ func genAFMText(t *rapid.T) ([]byte, bool) {
 	if rapid.Bool().Draw(t, "fp") {
 		line("IsFixedPitch " + rapid.SampledFrom([]string{"true", "false", "True", "1"}).Draw(t, "fpv"))
 	}
+	// the same key again (files split long notices over several lines, tools
+	// append their own Comment and Version lines), and keys of the format
+	// that carry nothing the metrics keep
+	for k := rapid.SampledFrom([]int{0, 0, 1, 2, 4}).Draw(t, "nrepeat"); k > 0; k-- {
+		key := rapid.SampledFrom([]string{"FontName", "FullName", "Version", "Notice", "Notice", "Weight", "Comment", "FamilyName", "EncodingScheme", "CharacterSet"}).Draw(t, "rkey")
+		line(key + " " + genText(t, key))
+	}
+	if rapid.IntRange(0, 3).Draw(t, "nrepnum") == 0 {
+		key := rapid.SampledFrom([]string{"CapHeight", "XHeight", "Ascender", "Descender", "UnderlinePosition", "UnderlineThickness", "ItalicAngle", "StdHW", "StdVW", "MappingScheme", "EscChar", "Characters"}).Draw(t, "rnkey")
+		line(key + " " + numf(key))
+	}
 	n := rapid.IntRange(0, 10).Draw(t, "nglyphs")
 	line(fmt.Sprintf("StartCharMetrics %d", n))
 	for i := 0; i < n; i++ {
@@ -478,7 +489,7 @@ func genAFMText(t *rapid.T) ([]byte, bool) {
 func TestP2Closure(t *testing.T) {
 	rec := ev.New("C15", "closure")
 	defer rec.Finish(t)
-	rec.Rule("AFM texts from a line grammar: header keys present or absent with multi-word text and extra spaces, numbers with fractions, exponents, signs and values up to 1e9 (header numbers also 2^31, 2^63, 2^64, 1e19, -3e25, 1e300), IsFixedPitch spellings; glyph lines with codes out of range (-5, 256, 300), duplicate codes and names, widths beyond int16, fractional boxes, 0-2 ligatures, junk fields, missing names; kerning values beyond int16; LF and CRLF. F1 = Read(x) (rejected or non-finite inputs, and glyph-level numbers beyond 1e9, are counted and discarded); F2 = Read(Write(F1)) must keep all names and text fields and change every number by less than 1; F3 = Read(Write(F2)) must equal F2 (field comparison and reflect.DeepEqual). Non-trivial: >= 3 glyph lines and >= 1 fractional number; distinct by text.")
+	rec.Rule("AFM texts from a line grammar: header keys present or absent with multi-word text and extra spaces, up to four of them given a second time (several Notice, Comment, Version ... lines) and keys the metrics do not keep, numbers with fractions, exponents, signs and values up to 1e9 (header numbers also 2^31, 2^63, 2^64, 1e19, -3e25, 1e300), IsFixedPitch spellings; glyph lines with codes out of range (-5, 256, 300), duplicate codes and names, widths beyond int16, fractional boxes, 0-2 ligatures, junk fields, missing names; kerning values beyond int16; LF and CRLF. F1 = Read(x) (rejected or non-finite inputs, and glyph-level numbers beyond 1e9, are counted and discarded); F2 = Read(Write(F1)) must keep all names and text fields and change every number by less than 1; F3 = Read(Write(F2)) must equal F2 (field comparison and reflect.DeepEqual). Non-trivial: >= 3 glyph lines and >= 1 fractional number; distinct by text.")
 	ev.SetupRapid(60000, 1600000)
 	rapid.Check(t, func(t *rapid.T) {
 		text, frac := genAFMText(t)
